@@ -16,11 +16,10 @@ ENV["CARGO_TERM_COLOR"] = "never"
 # quick-tier budget multipliers for monitors whose default quick budget is too slow for
 # an every-change check (gates are still met at these scales)
 QUICK_SCALE = {"C13": 0.35, "C14": 0.5, "C33": 0.6}
-# thorough tier: multiples of the monitors' built-in thorough budgets, chosen so that every
-# property gets at least a few minutes of 16 cores (measured on this image; the watchdog is
-# 3600 s and a check cut by it is INCONCLUSIVE, never a violation)
-THOROUGH_SCALE = {"C03": 3, "C04": 2, "C05": 10, "C06": 3, "C07": 2, "C15": 2, "C16": 2, "C18": 2, "C19": 2,
-                  "C20": 2, "C21": 2, "C22": 5, "C31": 2, "C32": 10, "C34": 2, "C36": 2}
+# thorough tier: optional multiples of the monitors' built-in thorough budgets (none set: the
+# built-in budgets are the ones every property was swept with; the watchdog is 3600 s and a
+# check cut by it is INCONCLUSIVE, never a violation)
+THOROUGH_SCALE = {}
 
 QUICK_WATCHDOG_S = 900
 THOROUGH_WATCHDOG_S = 3600
